@@ -249,6 +249,16 @@ func (c *e6dCtx) valueLB(e ast.Expr, f bfact) int {
 	case *ast.ParenExpr:
 		return c.valueLB(x.X, f)
 	case *ast.Ident, *ast.SelectorExpr:
+		// a fixed-size array (or pointer to one) has exactly its declared length
+		if t := c.info.TypeOf(x); t != nil {
+			u := t.Underlying()
+			if pt, ok := u.(*types.Pointer); ok {
+				u = pt.Elem().Underlying()
+			}
+			if arr, ok := u.(*types.Array); ok {
+				return int(arr.Len())
+			}
+		}
 		if p, ok := c.pathOf(x); ok {
 			return f[p]
 		}
@@ -582,6 +592,25 @@ func (c *e6dCtx) analyzeBody(name string, body *ast.BlockStmt) {
 		}
 		for i, s := range b.Succs {
 			ef := edgeFacts(b, f, i)
+			// entering the body of `for k[, v] := range X`: k and v are fresh, and k < len(X)
+			if s.Kind == cfg.KindRangeBody {
+				if rs, ok := s.Stmt.(*ast.RangeStmt); ok {
+					for _, l := range []ast.Expr{rs.Key, rs.Value} {
+						if l != nil {
+							if path, ok := c.pathOf(l); ok {
+								c.kill(ef, path)
+							}
+						}
+					}
+					if rs.Key != nil {
+						if kp, ok := c.pathOf(rs.Key); ok {
+							if xp, ok := c.pathOf(rs.X); ok {
+								ef["lt:"+kp+"|"+xp] = 1
+							}
+						}
+					}
+				}
+			}
 			if !visited[s.Index] {
 				visited[s.Index] = true
 				in[s.Index] = ef
